@@ -58,8 +58,9 @@ def run_family(title, module, cfg, tracefile, corruptions, wd, start_ops=("reset
             if ti in used:
                 continue
             trid = lines[a].get("tr", a)
-            if any(tr == trid for (_, tr) in bad0_tr):
-                continue    # keep traces that carry a known deviation out of it
+            already = {p for (p, tr) in bad0_tr if tr == trid}
+            if not (c.expect - already):
+                continue    # every property that could object already objects to this trace (known deviation)
             for i in range(a, b):
                 if c.find(lines[i], lines[a]):
                     hit = (ti, i)
@@ -95,7 +96,7 @@ def run_family(title, module, cfg, tracefile, corruptions, wd, start_ops=("reset
                          "expected": sorted(c.expect), "rejected_for": []})
             continue
         key = marks[c.name] if not single_line else i
-        got = by_tr.get(key, set())
+        got = by_tr.get(key, set()) - {p for (p, tr) in bad0_tr if tr == key}
         ok = bool(got & c.expect)
         rows.append({"family": title, "corruption": c.name, "status": "rejected" if ok else "ACCEPTED",
                      "expected": sorted(c.expect), "rejected_for": sorted(got)})
@@ -183,7 +184,58 @@ def client_corruptions():
             if e["k"] == "out":
                 e["d"]["lt"]["mi_keys"], e["d"]["lt"]["sha_keys"] = [], []
 
+    def send_without_packet(lines, i):
+        lines[i]["ev"] = [e for e in lines[i]["ev"] if e["k"] != "out"]
+
+    def conclude_other_request(lines, i):
+        o = lines[i]
+        other = next(t["id"] for t in lines[i - 1]["snap"]["tx"] if t["id"] != o["id"])
+        for e in o["ev"]:
+            if e["k"] == "recvd":
+                e["id"] = other
+
+    def fail_early(lines, i):
+        lines[i]["t"] -= 1000
+
+    def deadline_ignored(lines, i):
+        # the request is still there after the timer call at its deadline, nothing reported
+        o = lines[i]
+        fid = next(e["id"] for e in o["ev"] if e["k"] == "failed")
+        o["ev"] = [e for e in o["ev"] if not (e["k"] == "failed" and e["id"] == fid)]
+        prev = lines[i - 1]["snap"]
+        o["snap"]["tx"] = sorted(o["snap"]["tx"] + [t for t in prev["tx"] if t["id"] == fid], key=lambda t: t["id"])
+        o["snap"]["heap"] = o["snap"]["heap"] + [h for h in prev["heap"] if h["id"] == fid]
+
+    def lt_user_in_clear(lines, i):
+        for e in lines[i]["ev"]:
+            if e["k"] == "out":
+                e["d"]["lt"]["user"] = "name"
+
+    def lt_old_nonce(lines, i):
+        for e in lines[i]["ev"]:
+            if e["k"] == "out":
+                e["d"]["lt"]["nonce"] = "a-nonce-the-server-never-sent"
+
     return [
+        Corruption("long-term request names the user in clear although the nonce cookie asks for anonymity", {"C08", "C13"},
+                   lambda o, r: o["op"] == "send" and o["res"] == "ok" and r["cfg"]["mech"] == "lt"
+                   and any(e["k"] == "out" and e["d"]["lt"]["user"] == "hash" for e in o["ev"]), lt_user_in_clear),
+        Corruption("long-term request carries a nonce the server never sent", {"C08", "C13"},
+                   lambda o, r: o["op"] == "send" and o["res"] == "ok" and r["cfg"]["mech"] == "lt"
+                   and any(e["k"] == "out" and e["d"]["lt"]["nonce_present"] and e["d"]["lt"]["mi_keys"] + e["d"]["lt"]["sha_keys"]
+                           for e in o["ev"]), lt_old_nonce),
+        Corruption("successful send_request emits no packet", {"C13", "C05", "C11", "C06"},
+                   lambda o, r: o["op"] == "send" and o["res"] == "ok", send_without_packet),
+        Corruption("response delivered under the id of another outstanding request", {"C05"},
+                   lambda o, r: o["op"] == "recv" and o["res"] == "ok" and r["cfg"]["mech"] == "none"
+                   and any(e["k"] == "recvd" and e["cls"] in ("success", "error") for e in o["ev"])
+                   and len(o["snap"]["tx"]) >= 1, conclude_other_request),
+        Corruption("time-out reported one millisecond before the deadline", {"C06"},
+                   lambda o, r: o["op"] == "timeout" and not r["cfg"]["reliable"] and r["cfg"]["mech"] == "none"
+                   and any(e["k"] == "failed" for e in o["ev"]) and not has_ev(o, "out"), fail_early),
+        Corruption("timer call at the deadline reports nothing and keeps the request", {"C06", "C11"},
+                   lambda o, r: o["op"] == "timeout" and r["cfg"]["mech"] == "none"
+                   and sum(1 for e in o["ev"] if e["k"] == "failed") == 1, deadline_ignored),
         Corruption("long-term request whose MAC verifies under no key of the dialogue", {"C08"},
                    lambda o, r: o["op"] == "send" and o["res"] == "ok" and r["cfg"]["mech"] == "lt"
                    and any(e["k"] == "out" and (e["d"]["lt"]["mi_keys"] or e["d"]["lt"]["sha_keys"]) for e in o["ev"]),
